@@ -34,7 +34,8 @@ def timer_jobs(tier):
             out.append({
                 "name": "timer-%s-%s-args" % (un, "rearm" if pre else "fresh"), "src": "timer.c",
                 "defs": dict(KF, UNIT=u, PRE=pre, API_EV=0), "unwind": 6, "solver": SOLVER,
-                "prop_exclude": None if u == 0 else "Euclid",
+                # (under KF_TIMER_USEC the exemption predicate needs the divider too: "accepted" is then window-only for us)
+                "prop_exclude": None if u == 0 else ("Euclid|accepted when" if (u == 2 and KF) else "Euclid"),
                 "shape": "tpt_ev_add_args/tpt_ev_enable_args(1,..), unit=%s, %s; all 64-bit data, flags, ABSTIME, all kernel "
                          "results" % (un, st),
                 "desc": "as the -ev job" + ("" if u == 0 else " except the it_value equality (see -args-w* jobs)"),
